@@ -100,6 +100,8 @@ def main():
             for d in demos:
                 if os.path.isfile(d):
                     shutil.copy(d, dst)
+            if meta_txt:
+                open(os.path.join(dst, 'meta.txt'), 'w').write(meta_txt)
             json.dump(result, open(os.path.join(dst, 'meta.json'), 'w'), indent=1)
         result['kept'] = confirmed
         print(json.dumps({k: result[k] for k in ('name', 'property', 'confirmed', 'kept', 'detected_by', 'checks')}, indent=1))
